@@ -170,8 +170,30 @@ def s1_submit(ctx):
         ctx.require(fn.qn in inside_update, 'C04.S3', '_execute_order is called only from update (%s)' % fn.qn, fn.site(n), key='C04.S3|exec-caller|%s' % fn.qn)
     # Order.direction is the sign of the quantity, written once
     ws = [w for w in writers_of_attr(M, 'direction') if w.fn.cls is not None and w.fn.cls.name == 'Order']
-    ctx.require(len(ws) == 1 and w_is_copysign(ctx, 'Order.__init__'), 'C04.S5', 'Order.direction = sign of the quantity, set once in the constructor',
-                ws[0].where if ws else None, key='C04.S5|direction')
+    oc_ = M.cls('Order')
+    dp_ = oc_.lookup('direction') if oc_ is not None else None
+    if not ws and not (dp_ is not None and dp_.is_property):
+        # no assignment of Order.direction anywhere and no property of that name in the class body: the order keeps its terms some other way (a record behind
+        # attributes attached to the class) - where the direction comes from is not read here
+        ctx.undecided('C04.S5', 'Order.direction = sign of the quantity, set once in the constructor', oc_.path if oc_ is not None else None,
+                      'no assignment of a direction field and no direction property in class Order')
+    elif not ws and dp_ is not None and dp_.is_property:
+        # the direction is read off a record of the order's terms through a property: what the property answers on a freshly built order
+        from ..lib import fresh_object_summaries
+        try:
+            ip_, dps_ = fresh_object_summaries(ctx, 'Order', 'direction')
+            vals_ = [p_.value for p_ in dps_ if p_.outcome == 'return']
+        except Exception:
+            vals_ = []
+        good_ = bool(vals_) and all(v_ is not None and v_[0] == 'call' and v_[1] in (('ext', 'COPYSIGN'), ('ext', 'SIGN')) and v_[2][-1] == V('quantity') for v_ in vals_)
+        if good_:
+            ctx.holds('C04.S5', 'Order.direction = sign of the quantity (a property over the terms fixed by the constructor)', dp_.site())
+        else:
+            ctx.undecided('C04.S5', 'Order.direction = sign of the quantity, set once in the constructor', dp_.site(),
+                          'direction is a property answering %s on a fresh order' % [fmt(v_)[:60] if v_ else None for v_ in vals_][:2])
+    else:
+        ctx.require(len(ws) == 1 and w_is_copysign(ctx, 'Order.__init__'), 'C04.S5', 'Order.direction = sign of the quantity, set once in the constructor',
+                    ws[0].where if ws else None, key='C04.S5|direction')
 
 
 def w_is_copysign(ctx, qn):
